@@ -6,7 +6,7 @@ import os
 
 from . import core
 
-KINDS = ["ro_sources", "stale_lock_tmp", "mtimes", "siblings", "mix"]
+KINDS = ["ro_sources", "stale_lock_tmp", "mtimes", "siblings", "ancestor_lock", "mix"]
 
 
 def stale_lock_texts(rnd, mx=0):
@@ -18,7 +18,7 @@ def stale_lock_texts(rnd, mx=0):
 
 def choose(rnd, rels, p=0.35, mx=0, kinds=None):
     """-> dict(kind, modes{rel:mode}, stale_lock_tmp text|None, mtimes{rel:epoch}|{}, lock_mtime, siblings{rel:bytes})"""
-    amb = {"kind": "plain", "modes": {}, "stale_lock_tmp": None, "mtimes": {}, "lock_mtime": None, "siblings": {}}
+    amb = {"kind": "plain", "modes": {}, "stale_lock_tmp": None, "mtimes": {}, "lock_mtime": None, "siblings": {}, "ancestor_lock": None}
     rels = sorted(rels)
     if not rels or rnd.random() >= p:
         return amb
@@ -42,7 +42,13 @@ def choose(rnd, rels, p=0.35, mx=0, kinds=None):
                 elif rnd.random() < 0.5:
                     amb["mtimes"][r] = rnd.choice([1000000000, 1500000000, 2100000000])
             amb["lock_mtime"] = rnd.choice([None, 1200000000, 2000000000])
+        elif k == "ancestor_lock":
+            # another project's lock in the directory above the configuration file (a workspace root): not this project's lock
+            amb["ancestor_lock"] = rnd.choice(stale_lock_texts(rnd, mx)[:6])
         elif k == "siblings":
+            # files next to the configuration whose names resemble the lock's or the tool's own scratch names
+            for name in rnd.sample(["Breadlog.tmp", "Breadlog.lock.bak", "Breadlog.yaml.tmp", "Breadlog.lock~", "Breadlog.lock.orig", ".Breadlog.lock.swp"], 3):
+                amb["siblings"][name] = b"# a draft kept next to the configuration\nnext_reference_id: 3\n"
             for r in rnd.sample(rels, min(len(rels), 2)):
                 stem = r[:-3] if r.endswith(".rs") else r
                 for name in [stem + ".tmp", r + ".tmp"] + rnd.sample([r + ".breadlog-tmp", r + "~", r + ".orig", r + ".bak", stem + ".rs.new",
@@ -60,6 +66,9 @@ def apply(proj_dir, amb, lock_dir=None):
         os.makedirs(os.path.dirname(p), exist_ok=True)
         with open(p, "wb") as f:
             f.write(data)
+    if amb.get("ancestor_lock") is not None:
+        with open(os.path.join(os.path.dirname(os.path.abspath(lock_dir)), "Breadlog.lock"), "w") as f:
+            f.write(amb["ancestor_lock"])
     if amb["stale_lock_tmp"] is not None:
         with open(os.path.join(lock_dir, "Breadlog.lock.tmp"), "w") as f:
             f.write(amb["stale_lock_tmp"])
@@ -98,7 +107,7 @@ def from_json(d):
         return None
     amb = {"kind": d.get("kind", "plain"), "modes": {k: int(v) for k, v in (d.get("modes") or {}).items()},
            "stale_lock_tmp": d.get("stale_lock_tmp"), "mtimes": {k: int(v) for k, v in (d.get("mtimes") or {}).items()},
-           "lock_mtime": d.get("lock_mtime"), "siblings": {}}
+           "lock_mtime": d.get("lock_mtime"), "siblings": {}, "ancestor_lock": d.get("ancestor_lock")}
     for k, v in (d.get("siblings") or {}).items():
         amb["siblings"][k] = bytes.fromhex(v["hex"]) if isinstance(v, dict) else v.encode("utf-8")
     return amb
